@@ -353,6 +353,167 @@ theorem C10_balanced (c : Cfg) (w : World) (h : Inv c w) (hfree : ∀ x, c.orgOf
     exact ⟨hf, h1, h5 hf, h3, h2⟩
 
 
+/-! ### no size_t wrap, and the static history theorem for pixel images -/
+
+/-- sizes that cannot wrap std::size_t: generous explicit bound -/
+def SmallDims (o : Org) (al W H : Nat) : Prop :=
+  0 < o.mstep ∧ 0 < o.chans ∧ 0 < o.b2m ∧ o.b2m ≤ 8 ∧
+  ((W * o.mstep + al * o.b2m) * H * o.chans + 8 + al < 18446744073709551616) ∧ (W * o.mstep + al * o.b2m < 18446744073709551616)
+
+/-- without size_t wrap a needed byte size of 0 means there is no pixel: the `NoWrap` side condition of the constructors holds -/
+theorem C10_needed_zero (o : Org) (al W H : Nat) (hs : SmallDims o al W H) (hz : o.needed al W H = 0) : W * H = 0 := by
+  obtain ⟨hm, hc, hb, hb8, hfit, hfitr⟩ := hs
+  have hrow := C10_row_size_spec (W : Int) (al : Int) (o.mstep : Int) (o.b2m : Int) (by omega) (by omega) (by omega) (by omega)
+    (by have h := Int.ofNat_lt.mpr hfitr; simp only [Int.natCast_add, Int.natCast_mul] at h; omega)
+  -- the row size is between w*step and w*step + al*b2m
+  have hr0 : (W : Int) * o.mstep ≤ row_size W al o.mstep o.b2m ∧ row_size W al o.mstep o.b2m ≤ (W : Int) * o.mstep + al * o.b2m := by
+    by_cases ha : (al : Int) = 0
+    · have := hrow.1 ha; rw [this]; constructor
+      · omega
+      · have : (0 : Int) ≤ (al : Int) * o.b2m := Int.mul_nonneg (Int.natCast_nonneg _) (Int.natCast_nonneg _)
+        omega
+    · have := hrow.2 (by omega); omega
+  have hwm : (0 : Int) ≤ (W : Int) * o.mstep := Int.mul_nonneg (Int.natCast_nonneg _) (Int.natCast_nonneg _)
+  have hrnn : (0 : Int) ≤ row_size W al o.mstep o.b2m := by omega
+  -- if both W and H are positive the total is positive
+  by_cases hw : W = 0
+  · simp [hw]
+  by_cases hh : H = 0
+  · simp [hh]
+  exfalso
+  have hW : (1 : Int) ≤ W := by omega
+  have hH : (1 : Int) ≤ H := by omega
+  have hrow1 : (1 : Int) ≤ row_size W al o.mstep o.b2m := by
+    have : (1 : Int) ≤ (W : Int) * o.mstep := by
+      have h1 : (1 : Int) ≤ o.mstep := by omega
+      have := Int.mul_le_mul hW h1 (by decide) (by omega)
+      simpa using this
+    omega
+  have hrh : (1 : Int) ≤ row_size W al o.mstep o.b2m * H := by
+    have := Int.mul_le_mul hrow1 hH (by decide) (by omega)
+    simpa using this
+  have hrhle : row_size W al o.mstep o.b2m * H ≤ ((W : Int) * o.mstep + al * o.b2m) * H :=
+    Int.mul_le_mul_of_nonneg_right hr0.2 (by omega)
+  have hfitI : (((W : Int) * o.mstep + al * o.b2m) * H * o.chans + 8 + al < 18446744073709551616) := by
+    have h := Int.ofNat_lt.mpr hfit; simp only [Int.natCast_add, Int.natCast_mul] at h; omega
+  have hc1 : (1 : Int) ≤ o.chans := by omega
+  have hbig : ((W : Int) * o.mstep + al * o.b2m) * H ≤ ((W : Int) * o.mstep + al * o.b2m) * H * o.chans := by
+    have hnn : (0 : Int) ≤ ((W : Int) * o.mstep + al * o.b2m) * H :=
+      Int.mul_nonneg (Int.add_nonneg hwm (Int.mul_nonneg (Int.natCast_nonneg _) (Int.natCast_nonneg _))) (Int.natCast_nonneg _)
+    have := Int.mul_le_mul_of_nonneg_left hc1 hnn
+    simpa using this
+  unfold Org.needed at hz
+  split at hz
+  · -- planar
+    have hrhc : row_size W al o.mstep o.b2m * H * o.chans ≤ ((W : Int) * o.mstep + al * o.b2m) * H * o.chans :=
+      Int.mul_le_mul_of_nonneg_right hrhle (by omega)
+    have hspec := C10_total_planar_spec (W : Int) (H : Int) (al : Int) (o.mstep : Int) (o.b2m : Int) (o.chans : Int) (by omega) (by omega) hrnn
+      (by omega) (by omega) (by omega) (by omega) (by omega)
+    rw [hspec] at hz
+    have hp1 : (1 : Int) ≤ row_size W al o.mstep o.b2m * H * o.chans := by
+      have := Int.mul_le_mul hrh hc1 (by decide) (by omega)
+      simpa using this
+    generalize row_size W al o.mstep o.b2m * H * o.chans = p at *
+    have hq : (1 : Int) ≤ (p + o.b2m - 1) / o.b2m := by
+      apply Int.le_ediv_of_mul_le (by omega); omega
+    have hsl : (0 : Int) ≤ (if (al : Int) > 0 then (al : Int) - 1 else 0) := by split <;> omega
+    generalize hq' : (p + o.b2m - 1) / (o.b2m : Int) = q at *
+    generalize hs' : (if (al : Int) > 0 then (al : Int) - 1 else 0) = sl at *
+    omega
+  · have hspec := C10_total_interleaved_spec (W : Int) (H : Int) (al : Int) (o.mstep : Int) (o.b2m : Int) (o.chans : Int) (by omega) hrnn
+      (by omega) (by omega) (by omega) (by omega)
+    rw [hspec] at hz
+    generalize row_size W al o.mstep o.b2m * H = p at *
+    have hq : (1 : Int) ≤ (p + o.b2m - 1) / o.b2m := by
+      apply Int.le_ediv_of_mul_le (by omega); omega
+    have hsl : (0 : Int) ≤ (if (al : Int) > 0 then (al : Int) - 1 else 0) := by split <;> omega
+    generalize hq' : (p + o.b2m - 1) / (o.b2m : Int) = q at *
+    generalize hs' : (if (al : Int) > 0 then (al : Int) - 1 else 0) = sl at *
+    omega
+
+
+/-- bound used by the static history theorem (any bound that keeps the byte sizes below 2^64 would do) -/
+def Bound : Nat := 1048576
+def DB (W H al : Nat) : Prop := W ≤ Bound ∧ H ≤ Bound ∧ al ≤ Bound
+def OrgSmall (o : Org) : Prop := 0 < o.mstep ∧ o.mstep ≤ 64 ∧ 0 < o.chans ∧ o.chans ≤ 8 ∧ 0 < o.b2m ∧ o.b2m ≤ 8
+
+private theorem smallDims_of_bounds (o : Org) (al W H : Nat) (ho : OrgSmall o) (hd : DB W H al) : SmallDims o al W H := by
+  obtain ⟨hm0, hm, hc0, hc, hb0, hb⟩ := ho
+  obtain ⟨hW, hH, hA⟩ := hd
+  unfold Bound at hW hH hA
+  have h1 : W * o.mstep ≤ 1048576 * 64 := Nat.mul_le_mul hW hm
+  have h2 : al * o.b2m ≤ 1048576 * 8 := Nat.mul_le_mul hA hb
+  have h3 : (W * o.mstep + al * o.b2m) * H ≤ (1048576 * 64 + 1048576 * 8) * 1048576 := Nat.mul_le_mul (by omega) hH
+  have h4 : (W * o.mstep + al * o.b2m) * H * o.chans ≤ (1048576 * 64 + 1048576 * 8) * 1048576 * 8 := Nat.mul_le_mul h3 hc
+  exact ⟨hm0, hc0, hb0, hb, by omega, by omega⟩
+
+private theorem DB_closed : DClosed DB := by
+  refine ⟨⟨by unfold Bound; omega, by unfold Bound; omega, by unfold Bound; omega⟩, ?_, ?_⟩
+  · intro W H a h; exact ⟨by unfold Bound; omega, by unfold Bound; omega, h.2.2⟩
+  · intro W H a W' H' a' h h'; exact ⟨h.1, h.2.1, h'.2.2⟩
+
+/-- the explicit dimensions and alignments of an operation are at most `Bound` -/
+def SmallOp (op : Op) : Prop := OpDims DB op
+
+private theorem recreateOK_static (c : Cfg) (w : World) (op : Op) (hinv : Inv c w) (hall : AllImgs DB w)
+    (horg : ∀ s o, c.orgOf s = some o → o.nontrivial = false ∧ OrgSmall o) (hop : SmallOp op) : RecreateOK c w op := by
+  have nw : ∀ s o al W H, c.orgOf s = some o → DB W H al → NoWrap c o al W H :=
+    fun s o al W H ho hd _ hz => C10_needed_zero o al W H (smallDims_of_bounds o al W H (horg s o ho).2 hd) hz
+  cases op with
+  | recreate s W H al f a v =>
+    intro o i ho hi
+    refine ⟨fun hge => ⟨fun hm => ?_, Or.inl (horg s o ho).1⟩, nw s o al W H ho hop.1⟩
+    have h0 := (hinv.nomem s i hi hm).1
+    exact C10_needed_zero o al W H (smallDims_of_bounds o al W H (horg s o ho).2 hop.1) (by omega)
+  | dims s t al W H v => exact fun o ho => nw s o al W H ho hop.1
+  | fill s t al W H v => exact fun o ho => nw s o al W H ho hop.1
+  | fillprobe s t al W H v => exact fun o ho => nw s o al W H ho hop.1
+  | fromview s t al s2 => exact fun o b ho hb => nw s o al b.w b.h ho (hop _ _ _ (hall s2 b hb))
+  | copy s s2 => exact fun o b ho hb => nw s o b.align b.w b.h ho (hall s2 b hb)
+  | assign s s2 => exact fun o b ho hb => nw s o b.align b.w b.h ho (hall s2 b hb)
+  | massign s s2 => exact fun o a b ho ha hb => nw s o a.align b.w b.h ho (DB_closed.2.2 _ _ _ _ _ _ (hall s2 b hb) (hall s a ha))
+  | _ => trivial
+
+/-- STATIC history theorem for pixel images (trivially constructible elements), valid for both source variants of allocate_: from the empty
+    world, for EVERY history whose explicit dimensions and alignments are at most 2^20 (so no size can wrap), for every armed allocation
+    fault, under safe swap, the invariant holds after the run -- no run-time side condition is left -/
+theorem C10_history_pixel_images (c : Cfg) (hsafe : SwapSafe c) (horg : ∀ s o, c.orgOf s = some o → o.nontrivial = false ∧ OrgSmall o)
+    (ops : List Op) (hops : ∀ op ∈ ops, SmallOp op) :
+    ∀ (w : World), Inv c w → w.imgs tmpSlot = none → AllImgs DB w → Inv c (run c w ops) := by
+  induction ops with
+  | nil => intro w h _ _; exact h
+  | cons op rest ih =>
+    intro w h htmp hall
+    have hsm := hops op (List.mem_cons_self)
+    have hok := recreateOK_static c w op h hall horg hsm
+    have h1 := inv_step h htmp hsafe op hok
+    have h2 := step_tmpfree c w op htmp
+    have h3 := all_step DB_closed c w op hall hsm
+    have hrest : ∀ op ∈ rest, SmallOp op := fun o ho => hops o (List.mem_cons_of_mem _ ho)
+    unfold run
+    cases hs : step c w op with
+    | mk w' out =>
+      rw [hs] at h1 h2 h3
+      have htmp' : (∀ x, out ≠ .assertFail x) → w'.imgs tmpSlot = none := by
+        intro hna
+        rcases h2 with ⟨x, hx⟩ | hn
+        · exact absurd hx (hna x)
+        · exact hn
+      cases out with
+      | assertFail x => exact h1
+      | ok => exact ih hrest w' h1 (htmp' (by intro x e; cases e)) h3
+      | badAlloc => exact ih hrest w' h1 (htmp' (by intro x e; cases e)) h3
+      | ctorThrow => exact ih hrest w' h1 (htmp' (by intro x e; cases e)) h3
+      | nocompile => exact ih hrest w' h1 (htmp' (by intro x e; cases e)) h3
+      | skip => exact ih hrest w' h1 (htmp' (by intro x e; cases e)) h3
+      | okFilled => exact ih hrest w' h1 (htmp' (by intro x e; cases e)) h3
+      | okUnfilled => exact ih hrest w' h1 (htmp' (by intro x e; cases e)) h3
+
+example : SmallOp (.recreate 0 5 3 16 none none 1) ∧ SmallOp (.dims 1 2 32 8 8 7) ∧ SmallOp (.copy 1 0) := by
+  refine ⟨⟨?_, ?_, ?_⟩, ⟨?_, ?_⟩, trivial⟩ <;> first | (unfold DB Bound; omega) | (intro W H a h; exact ⟨h.1, h.2.1, by unfold Bound; omega⟩)
+
+
+
 /-! ### recreate: dimensions, alignment of the view, reuse of storage -/
 
 /-- The reuse branch of recreate (`stepRec` takes it exactly when `_allocated_bytes ≥ total_allocated_size_in_bytes(dims)` under the
